@@ -71,6 +71,13 @@ def specs(tier, seed):
         pk, tend = pacing(rng, kinds[i % 6], 14)
         out.append({"seed": seed * 100000 + 290 + i, "sess": {"qtype": "NULL", "raw": True}, "relay": {},
                     "mode": "clean", "pkts": pk, "dur_ms": tend + 45000, "label": "cleanraw%d" % i})
+    # packets for the client reach the server's tun device while the client is still in its handshake (after the login,
+    # before the switch to raw mode / the end of the option negotiation); afterwards both directions must work
+    for i in range(8 if tier == "quick" else 48):
+        pk, tend = pacing(rng, kinds[i % 6], 10)
+        sess = {"qtype": "NULL", "raw": True} if i % 4 != 3 else {"qtype": common.QTYPES[i % 7], "lazy": i % 2}
+        out.append({"seed": seed * 100000 + 295 + i, "sess": dict(sess, hs_tun=1 + (i + i // 4) % 4), "relay": {},
+                    "mode": "clean", "pkts": pk, "dur_ms": tend + 45000, "label": "hstun%d" % i})
     # fault prefix, heal, settle, then packets that must arrive
     n_f = 60 if tier == "quick" else 700
     fcfgs = common.configs(n_f, seed + 3)
